@@ -141,7 +141,21 @@ where
                 }
                 let _ = std::fs::write(&crumb, i.to_string());
                 let run_seed = prng::mix(seed, pid, i as u64);
-                let out = f(i, run_seed);
+                // a panic that escapes a run's own capture means the library handed back something the
+                // judging code considers structurally impossible: report it, do not die of it
+                let out = match crate::util::catch_res(|| f(i, run_seed)) {
+                    Ok(o) => o,
+                    Err(msg) => {
+                        let mut o = RunOut::default();
+                        o.violations.push(Violation {
+                            key: "panic-while-judging".into(),
+                            class: "panic-while-judging".into(),
+                            detail: format!("run {} panicked outside the captured library calls: {}", i, msg),
+                            replay: serde_json::json!({"abort_run": i, "tier": std::env::var("VERIF_TIER_EFFECTIVE").unwrap_or_else(|_| "quick".into())}),
+                        });
+                        o
+                    }
+                };
                 results.lock().unwrap()[i] = Some(out);
             });
         }
@@ -365,7 +379,8 @@ pub fn finish(
         exit = 1;
         new_keys += 1;
         // beyond 8 distinct keys: still reported with a replay file, but not minimised / re-run
-        let small = if new_keys > 8 { v.clone() } else { minimise(v) };
+        // a minimiser that panics (it re-executes the failing case) must not take the report down
+        let small = if new_keys > 8 { v.clone() } else { crate::util::catch_res(|| minimise(v)).unwrap_or_else(|_| v.clone()) };
         let path = write_replay(&rep.prop, rep.seed, *run, &small);
         let fresh = if new_keys > 8 { None } else { replay_fresh(&path) };
         println!("VIOLATION property={} replay={}", rep.prop, path);
